@@ -144,6 +144,14 @@ def run(ctx):
     for _ in range(R):
         # ---- field construction
         jvp_check(ctx, 'generate_complex_field', lambda x: LW.generate_complex_field(x[0], x[1]), rnd(2, lo=0.2, hi=2.0), 1e-6, 1e-9, M('gen_field'))
+        # the learned phase / amplitude IMAGE handed over as it is (the tensor - or torch.nn.Parameter - itself is the argument, not an element of it)
+        amp_c, ph_c = rnd(5, 6, lo=0.2, hi=2.0), rnd(5, 6, lo=-3.0, hi=3.0)
+        jvp_check(ctx, 'generate_complex_field/phase image', lambda x: LW.generate_complex_field(amp_c, x), rnd(5, 6, lo=-3.0, hi=3.0), 1e-5)
+        jvp_check(ctx, 'generate_complex_field/amplitude image', lambda x: LW.generate_complex_field(x, ph_c), rnd(5, 6, lo=0.2, hi=2.0), 1e-5)
+        jvp_check(ctx, 'generate_complex_field/phase image, scalar amplitude', lambda x: LW.generate_complex_field(1.0, x), rnd(5, 6, lo=-3.0, hi=3.0), 1e-5)
+        jvp_check(ctx, 'generate_complex_field -> propagate_beam/phase image',
+                  lambda x: LW.propagate_beam(LW.generate_complex_field(amp_c.to(torch.float32), x), 2 * math.pi / 0.5, 1.3, 0.8, 0.5, propagation_type='Bandlimited Angular Spectrum',
+                                              zero_padding=[True, False, True]), rnd(5, 6, lo=-3.0, hi=3.0, dtype=torch.float32), 3e-2)
         jvp_check(ctx, 'calculate_amplitude/phase', lambda x: torch.stack([LW.calculate_amplitude(torch.complex(x[0], x[1])),
                                                                            LW.calculate_phase(torch.complex(x[0], x[1]))]),
                   rnd(2, lo=0.3, hi=2.0), 1e-6, 1e-9, M('amp_phase'))
